@@ -272,6 +272,14 @@ type knownFinding struct {
 	Commit     string `json:"commit,omitempty"`
 }
 
+// replayRoot: /verif/replays; the parallel self-test corpus redirects it (GOVC_REPLAY_DIR) together with the evidence.
+func replayRoot() string {
+	if d := os.Getenv("GOVC_REPLAY_DIR"); d != "" {
+		return d
+	}
+	return "/verif/replays"
+}
+
 func loadKnown() []knownFinding {
 	var k []knownFinding
 	data, err := os.ReadFile("/verif/known_findings.json")
@@ -477,7 +485,7 @@ func cmdCheck(args []string) {
 		if len(baseline) > 0 {
 			// a function under contract disappeared: every baseline obligation of it is now unproved
 			for _, m := range missing {
-				path := filepath.Join("/verif/replays", *prop, sanitize(m)+".json")
+				path := filepath.Join(replayRoot(), *prop, sanitize(m)+".json")
 				os.MkdirAll(filepath.Dir(path), 0o755)
 				os.WriteFile(path, []byte(fmt.Sprintf("{\"property\":%q,\"obligation\":\"function-under-contract-missing\",\"function\":%q}\n", *prop, m)), 0o644)
 				fmt.Printf("VIOLATION property=%s replay=%s no-failing-input-found\n", *prop, path)
@@ -533,7 +541,7 @@ func cmdCheck(args []string) {
 }
 
 func writeReplay(prop string, ob *Obligation) string {
-	dir := filepath.Join("/verif/replays", prop)
+	dir := filepath.Join(replayRoot(), prop)
 	os.MkdirAll(dir, 0o755)
 	path := filepath.Join(dir, sanitize(ob.Name)+".json")
 	vals := map[string]string{}
